@@ -64,19 +64,28 @@ func Run(o *hx.Opts, w *lineio.Writer) error {
 		runAll(cases, w)
 		return nil
 	}
+	// generated lazily and executed in batches so that the thorough tier stays small in memory
 	var cases []namedIn
+	flush := func(force bool) {
+		if len(cases) >= 2000 || (force && len(cases) > 0) {
+			runAll(cases, w)
+			cases = cases[:0]
+		}
+	}
 	cases = append(cases, systematic(o.Seed)...)
 	r := o.Rand(13)
-	n := o.N(2500, 60000)
+	n := o.N(12000, 100000)
 	for i := 0; i < n; i++ {
 		in := In{Kind: "rand", Spec: genSpec(r), Ext: defaultExt(), Runs: 30,
 			Adjust: genAdj(r, adjOpts{pFamily: 0.45, zeroLimit: true, setRemove: true})}
 		cases = append(cases, namedIn{fmt.Sprintf("rand-%d", i), in})
+		flush(false)
 	}
 	rx := o.Rand(1313)
-	for i := 0; i < o.N(240, 4000); i++ {
+	for i := 0; i < o.N(1200, 8000); i++ {
 		cases = append(cases, namedIn{fmt.Sprintf("excl-%d", i), excluded(rx, i)})
+		flush(false)
 	}
-	runAll(cases, w)
+	flush(true)
 	return nil
 }
